@@ -358,7 +358,7 @@ Theorem reinit_is_constant_thm : forall cpu a s1 s2,
 Proof.
   intros cpu a s1 s2 Ha. pose proof arch_ok_all as H. rewrite forallb_forall in H. specialize (H a Ha).
   apply andb_true_iff in H. destruct H as [H1 H2].
-  apply reinit_internal_constant; auto. exact variants_ok_all.
+  apply reinit_internal_constant; auto using variants_ok_all.
 Qed.
 
 (* ------------------------------------------------------------------ no residue *)
